@@ -49,7 +49,7 @@ def can_fetch_spec(o):
     return z3.Or(o.killed, z3.And(z3.Not(blocked), driver))
 
 
-def invariant(S, o, g):
+def invariant(S, o, g, gc_done=True):
     h = o._mailbox
     sent = lambda n: z3.Select(g.Sent, n)
     smsg = lambda n: z3.Select(g.SentMsg, n)
@@ -75,6 +75,10 @@ def invariant(S, o, g):
          z3.ForAll([_s], z3.Implies(z3.And(0 <= _s, _s < nsub(o)),
                                     z3.Or(W(o, _s) == NONE, W(o, _s) == int2v(v2int(W(o, _s))))))),
     ]
+    if gc_done:
+        cl.append(("I11 only undelivered messages are held: every buffered message is still needed by some subscriber",
+                   z3.Implies(nsub(o) > 0, z3.ForAll([_n], z3.Implies(h.has(_n), z3.Exists([_s], z3.And(
+                       0 <= _s, _s < nsub(o), _n > R(o, _s))))))))
     if o.max_messages is not PINF:
         cl.append(("I4 the buffer never holds more than max_messages undelivered messages", h.size <= o.max_messages))
     else:
@@ -247,7 +251,8 @@ HAS_MSG_L, GET_MSG_L = _mk_observers(True)
 
 
 # -- the same two functions verified on the concrete list of (number, message) pairs ----------------------
-MB_LIST = ObjT("Mailbox", killed="bool", _mailbox=ListT(("int", "V")))
+MB_LIST = ObjT("Mailbox", model=ClassModel(props={"_lowest_msg_number": inline_property(F, "Mailbox._lowest_msg_number")}),
+               killed="bool", _mailbox=ListT(("int", "V")))
 
 has_msg_list = REG.add(Contract(
     F, "Mailbox._has_msg", variant="list of pairs",
@@ -547,7 +552,7 @@ def _rd_inv3(S, a):
     return [("registered", S.And(0 <= me, me < nsub(o), S.Not(o.killed))),
             ("read position advanced to the last collected message", S.And(R(o, me) == a.next_number - 1, W(o, me) == NONE)),
             ("delivered so far: everything below n0", S.And(a.out.n == _n0(a), _delivered_ok(S, a), _n0(a) >= 0)),
-            ] + _ty_facts(S, a) + [("monitor " + l, f) for l, f in invariant(S, o, a.ghost)]
+            ] + _ty_facts(S, a) + [("monitor " + l, f) for l, f in invariant(S, o, a.ghost, gc_done=False)]
 
 
 def _rd_inv4(S, a):
